@@ -286,6 +286,9 @@ def emit():
         ("catalogue", "Energy", "catalogue", "Mass"),
         ("synthetic", "SynN", "catalogue", "Duration"),
         ("catalogue", "Duration", "synthetic", "SynN"),
+        ("catalogue", "Temperature", "catalogue", "Duration"),
+        ("catalogue", "Force", "catalogue", "Area"),
+        ("catalogue", "DataThroughput", "catalogue", "Power"),
     ]
     tmap = {}
     for cr, t, cfg in all_types:
